@@ -404,6 +404,9 @@ def op_over(stack):
 def op_pick(stack):
     if len(stack) < 1:
         return False
+    # script numbers used as operands are at most 4 bytes long
+    if len(stack[-1]) > 4:
+        return False
     n = decode_num(stack.pop())
     if n < 0 or len(stack) < n + 1:
         return False
@@ -413,6 +416,9 @@ def op_pick(stack):
 
 def op_roll(stack):
     if len(stack) < 1:
+        return False
+    # script numbers used as operands are at most 4 bytes long
+    if len(stack[-1]) > 4:
         return False
     n = decode_num(stack.pop())
     if n < 0 or len(stack) < n + 1:
@@ -865,6 +871,9 @@ def op_checklocktimeverify(stack, tx_obj, input_index):
         return False
     if len(stack) < 1:
         return False
+    # BIP65: the operand is a script number of at most 5 bytes
+    if len(stack[-1]) > 5:
+        return False
     element = decode_num(stack[-1])
     if element < 0:
         return False
@@ -879,6 +888,9 @@ def op_checklocktimeverify(stack, tx_obj, input_index):
 def op_checksequenceverify(stack, tx_obj, input_index):
     sequence = tx_obj.tx_ins[input_index].sequence
     if len(stack) < 1:
+        return False
+    # BIP112: the operand is a script number of at most 5 bytes
+    if len(stack[-1]) > 5:
         return False
     element = decode_num(stack[-1])
     if element < 0:
